@@ -327,6 +327,8 @@ def gen_views(rnd):
         gl.insert(rnd.randint(0, max(0, len(gl) - 1)), rnd.choice([('zbad', 'total / period("week")'), ('zbad', 'nosuchname + 1'),
                                                                    ('zbad', '(total if months > 1 else nosuchname)')]))
     views = []
+    exotic = ['\u0415\u0434\u0430', '\u0414\u043e\u043c', '\u8cb7\u3044\u7269', '\u0395\u03bb\u03bb\u03b7\u03bd\u03b9\u03ba\u03ac', 'Food & Co', 'Food / Co', 'Food + Co']
+    rnd.shuffle(exotic)
     for i in range(rnd.randint(6, 12)):
         loc = []
         r = rnd.random()
@@ -341,7 +343,8 @@ def gen_views(rnd):
         if loc and rnd.random() < .15:
             loc.insert(0, ('zlocbad', rnd.choice(['nosuchname * 2', 'sum(category)'])))
         f = rnd.choice(BAD_FILTERS) if rnd.random() < .12 else gfilter(rnd)
-        views.append({'name': 'V%d' % i, 'locals': loc, 'filter': f})
+        # (view names are free text: other scripts, punctuation that only differs in one character)
+        views.append({'name': (exotic.pop() if (exotic and rnd.random() < .35) else 'V%d' % i), 'locals': loc, 'filter': f})
     if any(n == 'zbad' for n, _ in gl):
         # ... and views that READ the variable that has no value (as divisor, dividend, operand of a comparison): nothing can be computed from it
         for k, f in enumerate(rnd.sample(['total / zbad < 0.5', 'count(payments) % zbad == 0', 'zbad / total <= 1', 'total > 0 and total / zbad >= 0', 'zbad == 0 or total % zbad < 1',
@@ -398,6 +401,35 @@ def judge(rec, rnd, txns, gl, views):
     except Exception as e:
         rec.violation('classify_by_sections-raises:' + type(e).__name__, f'{type(e).__name__}: {e}', case)
         return
+    if core.rng_for('C10', 'html:' + core.digest(case)[:8]).random() < .12:
+        # the same grouping as the HTML report carries it (spendingData.sections): every view that has members is there under its own title, with those members
+        import os, tempfile
+        from vt.checks import c12
+        st2 = dict(st)
+        st2['sections'] = {n: A.compute_section_totals(m) for n, m in res.items()}
+        st2['_sections_config'] = cfg
+        fd, pth = tempfile.mkstemp(suffix='.html', prefix='vt-c10-')
+        os.close(fd)
+        try:
+            A.write_summary_file_vue(st2, pth, year=2025, currency_format='${amount}', sources=['s'], embedded_html=True)
+            data, err = c12.extract_data(open(pth, encoding='utf-8').read())
+        except Exception as e:
+            data, err = None, '%s: %s' % (type(e).__name__, e)
+        finally:
+            os.unlink(pth)
+        rec.count('html_report_view_checks')
+        if err or data is None:
+            rec.violation('html-report-with-views-fails', str(err)[:200], case)
+        else:
+            page = {}
+            for sec in data.get('sections', {}).values():
+                page.setdefault(sec['title'], set()).update(m['displayName'] for m in sec['merchants'].values())
+            for n, members in res.items():
+                want_m = {m for m, _ in members}
+                if want_m and page.get(n) != want_m:
+                    rec.violation('html-report-view-differs', f'view {n!r}: classify_by_sections lists {sorted(want_m)}, the HTML report carries '
+                                  f'{sorted(page[n]) if n in page else "no such view"} (views in the page: {sorted(page)})', case)
+                    break
     bym = defaultdict(list)
     for t in txns:
         bym[t['merchant']].append(t)
